@@ -14,6 +14,18 @@ CHECKS = {
         "MI_BLOCK_ALIGNMENT_MAX into a block (the largest the aligned entry points produce).",
    technique="Coq proof over Gallina model + regenerated tables + exhaustive model/implementation differential",
    design="3/C16"),
+ "C12": dict(
+   text="Machine-checked proof (Coq): for every reachable state of the page model (induction over all operation sequences: malloc, local free, "
+        "remote free, collect, extend) the heap walk of _mi_heap_area_visit_blocks -- forced collect, single-block / full-page shortcuts, free-bitmap "
+        "with the fast division -- visits exactly the live blocks, each once, in address order, and the count equals `used` (page_visit_exactly_live, "
+        "page_visit_count, page_collect_force_complete, page_live_count, fast_divide_correct). Tie: API traces on the real allocator; at every walk "
+        "the visited (address,size) multiset is checked against a shadow table of live blocks and, per page, the visited indices against the model's "
+        "page_visit_blocks on the page state dumped before the walk; page dumps are checked against page_inv_b and the model's transition relation.",
+   note="Trusted: Coq kernel, extraction, OCaml/C drivers, trace generator. Page-level theorem; that mi_heap_visit_pages reaches every page queue "
+        "(incl. the full queue) exactly once is checked by the shadow oracle, not proved. mi_abandoned_visit_blocks is not covered by this check "
+        "(needs MI_VISIT_ABANDONED; see C09). Single-threaded histories (no pending cross-thread frees, as the property assumes).",
+   technique="Coq proof over page model (invariant by induction) + API-trace differential with shadow oracle",
+   design="3/C12"),
 }
 NOT_YET = {}
 def main():
